@@ -67,6 +67,15 @@ static void check(Chk& k, const Spec& s, const Case& c, Prec prec) {
     const GroupT XY2 = X * Y;
     k.require("operator*==compose", (XY2.coeffs().array() == XY.coeffs().array()).all(), "X*Y differs from X.compose(Y)");
   }
+  {
+    // the same object on both sides, and the in-place forms
+    GroupT W = X; W *= W;
+    const std::vector<LD> S2 = lin_scale_of(s, MatL(aX * aX));
+    k.expect("X*=X", (double)ref_group_err(s, mat_of(s, W, prec), MatL(MX * MX), S2), tol, "X *= X != Mat(X)*Mat(X)");
+    k.expect("X.compose(X)", (double)ref_group_err(s, mat_of(s, X.compose(X), prec), MatL(MX * MX), S2), tol, "X.compose(X) != Mat(X)*Mat(X)");
+    GroupT V = X; V *= Y;
+    k.require("X*=Y == X*Y", (V.coeffs().array() == XY.coeffs().array()).all(), "X *= Y differs from X.compose(Y)");
+  }
   // inverse
   const GroupT Xi = X.inverse();
   const MatL MXi = mat_of(s, Xi, prec);
